@@ -14,7 +14,8 @@ VERIF = os.path.dirname(os.path.dirname(os.path.abspath(__file__)))
 sys.path.insert(0, os.path.join(VERIF, "tools"))
 from mutants import MUTANTS  # noqa: E402
 
-REPO = "/repo"
+REPO = os.environ.get("TRIAL_REPO", "/repo")  # a scratch worktree of /repo may be used instead (runs in parallel with the seed matrix)
+CHECK_ENV = "" if REPO == "/repo" else "VERIF_REPO=%s " % REPO
 
 
 def sh(cmd, **kw):
@@ -23,10 +24,10 @@ def sh(cmd, **kw):
 
 def apply(m):
     if "revert" in m:
-        sha = sh("git -C /repo log --format=%%H --grep='%s' -n 1" % m["revert"]).stdout.strip()
+        sha = sh("git -C %s log --format=%%H --grep='%s' -n 1" % (REPO, m["revert"])).stdout.strip()
         if not sha:
             raise SystemExit("mutant %s: fix commit not found" % m["name"])
-        r = sh("git -C /repo show %s | git -C /repo apply -R" % sha)
+        r = sh("git -C %s show %s | git -C %s apply -R" % (REPO, sha, REPO))
         if r.returncode != 0:
             raise SystemExit("mutant %s: cannot reverse %s: %s" % (m["name"], sha, r.stdout))
         return
@@ -41,15 +42,15 @@ def apply(m):
 
 
 def revert():
-    sh("git -C /repo checkout -- . && git -C /repo clean -fdq")
+    sh("git -C %s checkout -- . && git -C %s clean -fdq" % (REPO, REPO))
 
 
 def run(m, baseline, tier):
-    assert not sh("git -C /repo status --porcelain").stdout.strip(), "/repo is dirty"
+    assert not sh("git -C %s status --porcelain" % REPO).stdout.strip(), REPO + " is dirty"
     res = {"mutant": m["name"], "props": m["props"], "time": time.strftime("%F %T")}
     try:
         apply(m)
-        b = sh("cd /repo && go build ./... 2>&1 && cd exp && go build -mod=mod ./... 2>&1")
+        b = sh("cd %s && go build ./... 2>&1 && cd exp && go build -mod=mod ./... 2>&1" % REPO)
         if b.returncode != 0:
             res["build"] = "FAILED: " + b.stdout[-500:]
             return res
@@ -58,7 +59,7 @@ def run(m, baseline, tier):
             res["baseline"] = "green" if r.returncode == 0 else "red: " + r.stdout[-600:]
         for pid in m["props"]:
             t0 = time.time()
-            r = sh("cd %s && ./check %s %s" % (VERIF, pid, tier))
+            r = sh("cd %s && %s./check %s %s" % (VERIF, CHECK_ENV, pid, tier))
             viol = [l for l in r.stdout.splitlines() if l.startswith("VIOLATION")]
             res[pid] = {"exit": r.returncode, "violations": len(viol), "wall": round(time.time() - t0, 1)}
             print("  %s on %s: exit %d (%d VIOLATION lines) %.0fs" % (m["name"], pid, r.returncode, len(viol), time.time() - t0), flush=True)
